@@ -128,6 +128,21 @@ impl Prop for C07T {
             }
             st.bump("reach:all_compositions_swept");
         }
+        // suspension patterns of the *writer* seam: run on the whole stream with the
+        // recording writer, without and with injected suspensions
+        if sc.scheds.len() > 1 && sc.scheds[1].susp.iter().any(|&x| x > 0) {
+            let w0 = exec(&run_exec(sc, stream.clone(), vec![0, stream.len()], Sink::Sim(None), vec![]), st);
+            let w1 = exec(&run_exec(sc, stream.clone(), vec![0, stream.len()], Sink::Sim(None), sc.scheds[1].susp.clone()), st);
+            if !w0.crashed() && !w1.crashed() {
+                st.bump("reach:writer_suspension_compared");
+                if let Some(what) = logs_differ(&w0, &w1) {
+                    return Verdict::Violation {
+                        class: "suspension-dependent".into(),
+                        detail: format!("{what} of run differ with and without suspensions of writer/handler futures\n    without:{}\n    with   :{}", brief(&w0), brief(&w1)),
+                    };
+                }
+            }
+        }
         // second sentence: equal to run, one message at a time
         let splits = newline_splits(&stream);
         let fits = splits.windows(2).all(|w| w[1] - w[0] <= sc.n);
